@@ -64,7 +64,7 @@ def modelTrace (s : Conn) (step : Nat) : List HOp → List Conn
   | h :: r => let s' := Model.StreamTable.step s (toOp s step h); s' :: modelTrace s' (step + 1) r
 
 /-- the property predicate along the implementation's observations -/
-def specAlong (step : Nat) (before : ObsC) : List HOp → List String → Bool
+def specAlong (step : Nat) (sawC : Bool) (before : ObsC) : List HOp → List String → Bool
   | [], _ => true
   | _ :: _, [] => false
   | h :: hs, t :: ts =>
@@ -76,8 +76,13 @@ def specAlong (step : Nat) (before : ObsC) : List HOp → List String → Bool
           | some bw => replySpec bw.id step before o
           | none => false
         | .u id => replySpec id step before o
+        -- a stream reset by its user (no connection reset in the history) leaves the table: a late reply is dropped
+        | .x w => match before.waiters[w]? with
+          | some bw => sawC || !o.table.contains bw.id
+          | none => false
         | _ => true
-      stepOk && obsSpecC o && obsSpecGlobal o && specAlong (step + 1) o hs ts
+      let sawC' := sawC || (match h with | .c => true | _ => false)
+      stepOk && obsSpecC o && obsSpecGlobal o && specAlong (step + 1) sawC' o hs ts
 
 def tbl (pr base ops : String) (impl : List String) : String :=
   match parseProto pr, base.toNat?, (ops.splitOn ",").mapM parseHOp with
@@ -94,7 +99,7 @@ def tbl (pr base ops : String) (impl : List String) : String :=
       | some o, some wt => wt == "wire" ++ ",".intercalate (o.waiters.map (fun w => toString w.id))
       | _, _ => false
     let spec := impl.length == hops.length + 1 &&
-      specAlong 0 { base := b, table := [], waiters := [] } hops implObs && wireOk
+      specAlong 0 false { base := b, table := [], waiters := [] } hops implObs && wireOk
     s!"{if agree then "A" else "D"} {if spec then "S" else "V"} {joinWith " " modelToks}"
   | _, _, _ => "E E bad-case"
 
